@@ -49,7 +49,7 @@ def _tab(t):
 # ----- each adapter: f(inp) -> result ; `uses` lists the input keys handed to photutils ------------------------------------
 def e_aperture_photometry(inp):
     from photutils.aperture import CircularAnnulus, CircularAperture, aperture_photometry
-    ap = [CircularAperture(_positions(), 3.0), CircularAnnulus(_positions(), 4.0, 6.0)]
+    ap = inp.get('apertures') or [CircularAperture(_positions(), 3.0), CircularAnnulus(_positions(), 4.0, 6.0)]
     return aperture_photometry(inp['data'], ap, error=inp.get('error'), mask=inp.get('mask'), method=inp.get('method', 'exact'))
 
 
@@ -69,8 +69,9 @@ def e_aperture_mask(inp):
 def e_aperture_stats(inp):
     from astropy.stats import SigmaClip
     from photutils.aperture import ApertureStats, CircularAperture
-    st = ApertureStats(inp['data'], CircularAperture(_positions() + [(1.0, 1.0)], 4.0), error=inp.get('error'), mask=inp.get('mask'),
-                       sigma_clip=SigmaClip(3.0) if inp.get('sigclip') else None, local_bkg=inp.get('local_bkg'))
+    ap = inp.get('aperture5') or CircularAperture(_positions() + [(1.0, 1.0)], 4.0)
+    sc = (inp.get('sigma_clip_obj') or SigmaClip(3.0)) if inp.get('sigclip') else None
+    st = ApertureStats(inp['data'], ap, error=inp.get('error'), mask=inp.get('mask'), sigma_clip=sc, local_bkg=inp.get('local_bkg'))
     return {p: getattr(st, p) for p in st.properties if p not in ('sky_centroid', 'sky_centroid_icrs')}
 
 
@@ -246,7 +247,7 @@ def e_source_finder(inp):
 def e_source_catalog(inp):
     from photutils.segmentation import SourceCatalog
     cat = SourceCatalog(inp['data'], inp['segm'], error=inp.get('error'), mask=inp.get('mask'), background=inp.get('bkg'),
-                        convolved_data=inp.get('convolved'), localbkg_width=inp.get('localbkg_width', 0))
+                        convolved_data=inp.get('convolved'), localbkg_width=inp.get('localbkg_width', 0), detection_cat=inp.get('detection_cat'))
     out = {p: getattr(cat, p) for p in cat.properties if not p.startswith('sky_')}
     out['_circ'] = cat.circular_photometry(3.0)
     out['_kron'] = cat.kron_photometry((2.5, 1.4))
